@@ -804,6 +804,13 @@ class Normalizer:
             low = self._dict_get_lowering(st, modname, cname, state)
             if low is not None:
                 return low
+        if isinstance(st, (ast.Assign, ast.Return)) and isinstance(st.value, (ast.DictComp, ast.ListComp)):
+            low = self._comp_lowering(st, modname, cname, stack, state)
+            if low is not None:
+                out = []
+                for s_ in low:
+                    out += self._stmt(s_, modname, cname, stack, state)
+                return out
         if isinstance(st, (ast.Assign, ast.AnnAssign, ast.AugAssign, ast.Expr, ast.Return)):
             return self._hoist(st, "value", modname, cname, stack, state)
         return [st]
@@ -936,6 +943,40 @@ class Normalizer:
                 if isinstance(st, ast.Import) and any(a.name == "contextlib" and (a.asname or a.name) == e.func.value.id for a in st.names):
                     return True
         return False
+
+    # -- N13 -----------------------------------------------------------------------------
+    def _comp_lowering(self, st, modname, cname, stack, state):
+        """x = {K: V for t in IT if C} whose K / V calls a helper that is inlined  ->  acc = {}; for t in IT: if C: acc[K] = V; x = acc
+        (same for list comprehensions with acc.append(E)); comprehensions without such calls keep their canonical ELEM(..) forms."""
+        comp = st.value
+        parts = [comp.key, comp.value] if isinstance(comp, ast.DictComp) else [comp.elt]
+        if not any(self._first_call(p, modname, cname, stack) is not None for p in parts):
+            return None
+        tnames = {n.id for g_ in comp.generators for n in ast.walk(g_.target) if isinstance(n, ast.Name)}
+        if any(g_.is_async for g_ in comp.generators) or (tnames & state["locals"]):
+            return None
+        self.counter += 1
+        acc = f"_comp{self.counter}"
+        if isinstance(comp, ast.DictComp):
+            inner = ast.Assign(targets=[ast.Subscript(value=ast.Name(id=acc, ctx=ast.Load()), slice=comp.key, ctx=ast.Store())], value=comp.value, type_comment=None)
+            init = ast.Dict(keys=[], values=[])
+        else:
+            inner = ast.Expr(value=ast.Call(func=ast.Attribute(value=ast.Name(id=acc, ctx=ast.Load()), attr="append", ctx=ast.Load()), args=[comp.elt], keywords=[]))
+            init = ast.List(elts=[], ctx=ast.Load())
+        body = [inner]
+        for g_ in reversed(comp.generators):
+            for c in reversed(g_.ifs):
+                body = [ast.If(test=c, body=body, orelse=[])]
+            body = [ast.For(target=g_.target, iter=g_.iter, body=body, orelse=[], type_comment=None)]
+        first = ast.Assign(targets=[ast.Name(id=acc, ctx=ast.Store())], value=init, type_comment=None)
+        st.value = ast.Name(id=acc, ctx=ast.Load())
+        out = [first] + body + [st]
+        for o in out:
+            ast.copy_location(o, st)
+            ast.fix_missing_locations(o)
+        state["locals"] |= tnames | {acc}
+        self.lowered.append((state["caller"], getattr(st, "lineno", 0), "comprehension"))
+        return out
 
     # -- N11 -----------------------------------------------------------------------------
     def _walrus_if(self, st):
